@@ -18,6 +18,10 @@
 //
 // Only handles of nodes currently in the list are ever passed to the library (the precondition).
 //
+// Variant word "owner" (built with -race; see owner.go) runs ONLY the concurrent reading of "their
+// Value is never touched": owners update node.Value without the list mutex while the list is operated
+// on; oracles are the race detector and a lost-update check. Without that word everything below runs.
+//
 // Workloads (all sequential, variant "seq"):
 //
 //	tuples  for every list length 0..6 (thorough 0..7), every relative allocation order of the nodes
@@ -1280,6 +1284,10 @@ func runRandom(r *vkit.Report, nCases int) {
 
 func main() {
 	vkit.Main("C06", "exploration", func(r *vkit.Report) {
+		if r.VariantHas("owner") {
+			runOwner(r) // race-built variant: owners update Value concurrently (owner.go); nothing else runs
+			return
+		}
 		r.SetRule("case = one operation applied to one list state; after every operation the complete observable state " +
 			"(Len, Front, Back, the whole Next walk, the whole Prev walk, the end links, every Value, the links of a node just Removed) " +
 			"is compared with a slice of handles. non-trivial = the list held >= 2 nodes before the operation; " +
